@@ -247,13 +247,26 @@ Section Typed.
   (* ---------------------------------------------------------------- decision procedures *)
   Variables k cap nf : nat.   (* walk fuel, enumeration cap, depth of signature enumeration *)
 
-  (* Sem.walk_inh with the enumeration used for function/process signatures bounded to depth nf
-     (Sem.inhabb enumerates at the value's own depth: exponential for a function under a deep
-     list).  On first-order values the enumeration is never consulted. *)
+  (* no function / process inside *)
+  Fixpoint first_orderb (e : value) : bool :=
+    match e with
+    | VTup _ fs => (fix all (l : list (option nat * value)) : bool :=
+                      match l with [] => true | x :: l' => first_orderb (snd x) && all l' end) fs
+    | VFun _ | VProc _ => false
+    | _ => true
+    end.
+
+  (* Sem.walk_inh with the witnesses used for function/process SIGNATURE containment restricted to
+     first-order values of depth <= nf.  (Sem.inhabb enumerates at the value's own depth —
+     exponential for a function under a deep list — and `inhab n (VFun c) t` is not monotone in n:
+     at small n the containments are vacuous, so higher-order witnesses enumerated at one depth
+     and tested at another give spurious answers.  First-order membership is monotone.)  On
+     first-order values the enumeration is never consulted. *)
   Fixpoint inhabv (Q : registry) (n : nat) : env -> value -> nat -> bool :=
     match n with
     | 0 => fun _ _ _ => false
-    | S m => walk_inh Q (enum_inhab Q k cap (Nat.min nf m)) (inhabv Q m) k
+    | S m => walk_inh Q (fun E t => filter first_orderb (enum_inhab Q k cap (Nat.min nf m) E t))
+                      (inhabv Q m) k
     end.
 
   Fixpoint vdepth (e : value) : nat :=
